@@ -12,7 +12,7 @@ the Lean model's prediction of which arrays are poisoned (Drive/C14.lean).
 import os
 for _v in ('OPENBLAS_NUM_THREADS', 'OMP_NUM_THREADS', 'MKL_NUM_THREADS'):
     os.environ.setdefault(_v, '1')      # bit-exact comparisons: no thread-scheduling effects in BLAS/LAPACK reductions
-import ast, os, itertools
+import ast, os, itertools, copy
 import numpy as np
 from . import _c13_common as cm
 
@@ -38,7 +38,9 @@ META = dict(
     rule='histories over a pool of 4 inputs (2 vacancy keys x 2 solute variants) on small calculators: all histories up to '
          'length 3 (4 thorough) over {Lij x, edit slot s of the last/first result, clearcache, regenerate, save/reload} on '
          'the square lattice; every order of up to 3 evaluations (optionally with clearcache / reload / regenerate between) on '
-         'crystals with origin states (polar sites, non-zero bias correction); then random histories of length <= 10 on 2-D, '
+         'crystals with origin states (polar sites, non-zero bias correction); on anisotropic crystals (HCP, 2-D rectangular, '
+         'tetragonal; thorough + polar triangular, triclinic) every ordered pair of a structured family of inputs that differ in the '
+         'vacancy part only (same largest omega0 rate, other omega0 ratios), also with clearcache between; then random histories of length <= 10 on 2-D, '
          'cubic, hexagonal, low-symmetry and polar crystals; an exception raised by the implementation inside a history is an '
          'outcome (compared with the outcome on a new calculator), never a harness error; a case is one history; non-trivial = '
          'at least two Lij calls with a state-changing op or a change of vacancy key between; distinct by op text',
@@ -216,30 +218,45 @@ def _optext(op):
 _POOLS = {}
 
 
+_KEYOF = {}
+
+
 def _pool(name, ctx_seed):
-    """4 inputs: x = 2*k + v ; inputs 2k and 2k+1 share the vacancy part (bFV, bFT0) = key k."""
+    """inputs 0..3: x = 2*k + v ; inputs 2k and 2k+1 share the vacancy part (bFV, bFT0) = key k (k = 0, 1: independent random).
+    inputs 4..: a structured family (cm.thermo_family) of further vacancy keys 2, 3, ...: same largest omega0 rate, other
+    omega0 classes slower by different factors; same site / solute data.  _KEYOF[name, seed][x] is the vacancy key of input x."""
     key = (name, ctx_seed)
     if key in _POOLS: return _POOLS[key]
     nrng = np.random.default_rng(ctx_seed)
     d = cm.make_vm(name)
     base = [cm.rand_thermo(d, nrng) for _ in range(2)]
-    pool = []
+    pool, keyof = [], []
     for k in range(2):
         a = base[k]
-        pool.append(a)
+        pool.append(a); keyof.append(k)
         b = list(cm.copy_args(a))
         b[2] = b[2] + 0.25 * (1 + nrng.random(len(b[2])))      # other solute-vacancy binding
         b[5] = b[5] + 0.2 * nrng.standard_normal(len(b[5]))    # other omega2 barriers
-        pool.append(tuple(b))
+        pool.append(tuple(b)); keyof.append(k)
+    for a in cm.thermo_family(d, nrng):
+        pool.append(a); keyof.append(max(keyof) + 1)
     ref = []
-    for x in range(4):
+    for x in range(len(pool)):
         fresh = cm.make_vm(name, fresh=True)                  # a calculator that has never seen anything else
         try:
             ref.append(tuple(np.array(r, copy=True) for r in fresh.Lij(*cm.copy_args(pool[x]))))
         except Exception as e:                                # the history-free outcome of this input is an exception
             ref.append(('raises', type(e).__name__))
     _POOLS[key] = (pool, ref)
+    _KEYOF[key] = keyof
     return pool, ref
+
+
+def _family(name, ctx_seed):
+    """the L ops of the structured family of crystal `name`"""
+    _pool(name, ctx_seed)
+    keyof = _KEYOF[(name, ctx_seed)]
+    return [('L', keyof[x], x) for x in range(4, len(keyof))]
 
 
 def _valid(seq):
@@ -410,19 +427,22 @@ def _alphabet(nx=3):
     return al
 
 
-def _rand_hist(rng, length):
+def _rand_hist(rng, length, keyof=(0, 0, 1, 1)):
+    nx = len(keyof)
+    def L():
+        x = rng.randrange(nx) if rng.random() < 0.6 else rng.randrange(min(4, nx))
+        return ('L', keyof[x], x)
     seq, n = [], 0
     for _ in range(length):
         r = rng.random()
         if n == 0 or r < 0.45:
-            x = rng.randrange(4); seq.append(('L', x // 2, x)); n += 1
+            seq.append(L()); n += 1
         elif r < 0.70:
             seq.append(('M', rng.randrange(n), rng.choice([0, 0, 0, 1, 2, 3]), rng.choice([7, -3, 0, 11])))
         elif r < 0.80: seq.append(('C',))
         elif r < 0.88: seq.append(('R',))
         else: seq.append(('S',))
-    if seq[-1][0] != 'L':
-        x = rng.randrange(4); seq.append(('L', x // 2, x))
+    if seq[-1][0] != 'L': seq.append(L())
     return seq
 
 
@@ -457,13 +477,31 @@ def run(ctx):
                 if a[1] != b[1]:
                     for mid in ((('C',), ('S',)) if ctx.quick else (('C',), ('S',), ('R',))):
                         items.append((name, [a, b, mid, a])); items.append((name, [a, mid, b, a]))
+    # (1c) anisotropic crystals, inputs that differ in the vacancy part only (same largest omega0 rate, other ratios):
+    #      every ordered pair evaluated in sequence on one calculator, also with clearcache between (state that
+    #      survives inside the GF calculator, not in the Lij cache); thorough: also triples and reload / regenerate
+    for name in (cm.ANISOTROPIC_NAMES[:3] if ctx.quick else cm.ANISOTROPIC_NAMES):
+        fam = _family(name, ctx.seed)
+        nv = 3
+        for ia, a in enumerate(fam):
+            for ib, b in enumerate(fam):
+                if ia == ib: continue
+                costly = ctx.quick and name == cm.ANISOTROPIC_NAMES[0]          # quick: thin the costliest crystal
+                if costly and ia // nv != ib // nv: continue
+                items.append((name, [a, b]))
+                if not ctx.quick or (ia // nv == ib // nv and not (costly and ia > ib)):
+                    items.append((name, [a, ('C',), b]))
+                if not ctx.quick:
+                    items.append((name, [a, b, ('C',), a])); items.append((name, [a, ('S',), b])); items.append((name, [b, a, b]))
     ctx.count('exhaustive-histories', len(items))
     # (2) random histories on the zoo
-    names = ['sq', 'hon', 'tri', 'fcc', 'sc', 'rect2', 'pol2'] if ctx.quick else \
-        ['sq', 'hon', 'tri', 'fcc', 'sc', 'bcc', 'b2', 'dia', 'rect2', 'tric', 'hcp', 'pol2', 'pol3']
-    nrand = 60 if ctx.quick else 1500
+    names = ['sq', 'hon', 'tri', 'fcc', 'sc', 'rect2', 'pol2', 'tet1'] if ctx.quick else \
+        ['sq', 'hon', 'tri', 'fcc', 'sc', 'bcc', 'b2', 'dia', 'rect2', 'tric', 'hcp', 'pol2', 'pol3', 'tet1']
+    nrand = 48 if ctx.quick else 1500
     for t in range(nrand):
-        items.append((names[t % len(names)], _rand_hist(ctx.rng, ctx.rng.randint(3, 10))))
+        nm = names[t % len(names)]
+        _pool(nm, ctx.seed)
+        items.append((nm, _rand_hist(ctx.rng, ctx.rng.randint(3, 10), _KEYOF[(nm, ctx.seed)])))
     ctx.count('random-histories', nrand)
     _run_histories(ctx, mode, items)
     _probe(ctx)
